@@ -473,7 +473,10 @@ def observe(o):
     if o.get("panic"):
         return {"panic": o["panic"]}
     return {"panic": None, "valid": o["valid"], "out": o["out"],
-            "diags": sorted((d[0], d[1]) for d in o["diags"]),
+            # the statement speaks of the recipe and its validity: only whether there is an error is compared
+            # (a warning may come and go with blank space, e.g. the "invalid single word name" warning of a lone
+            # marker at a line end disappears when a blank or a comment follows it; recipe and validity are the same)
+            "has_error": any(d[0] == "e" for d in o["diags"]),
             "recipe": normalise(o["recipe"])}
 
 
